@@ -3,7 +3,7 @@
 # /verif/seeded/<name>/patch.diff applied (never touches /repo), record the outcome in meta.json (verif_check_result).
 set -u
 NAME=$1; TIER=${2:-quick}
-PROP=${NAME:0:3}
+PROP=${3:-${NAME:0:3}}
 WT=/tmp/seedrun
 exec 9>/tmp/seedrun.lock; flock 9   # one seed run at a time (shared scratch worktree)
 if [ ! -d $WT ]; then git -C /repo worktree add -q --detach $WT HEAD || exit 1; fi
@@ -13,14 +13,14 @@ cd /verif
 VERIF_REPO=$WT ./check $PROP --tier $TIER > /tmp/seedrun_$NAME.log 2>&1; RC=$?
 grep -a -v KNOWN /tmp/seedrun_$NAME.log | tail -4
 git -C $WT checkout -q -- . ; git -C $WT clean -fdq
-python3 - "$NAME" "$RC" "$TIER" <<'PY'
+python3 - "$NAME" "$RC" "$TIER" "$PROP" <<'PY'
 import json,sys,re
 name,rc,tier=sys.argv[1],int(sys.argv[2]),sys.argv[3]
 log=open(f'/tmp/seedrun_{name}.log',errors='replace').read()
 viol=[l for l in log.splitlines() if l.startswith('VIOLATION')]
 fi=[l.strip() for l in log.splitlines() if 'failing input' in l][:2]
 p=f'/verif/seeded/{name}/meta.json'; m=json.load(open(p))
-run={"tier":tier,"exit":rc,"caught":bool(viol) and rc==1,"concrete_input":bool(fi),"violation_lines":viol[:3],"failing_input":fi}
+run={"check":sys.argv[4],"tier":tier,"exit":rc,"caught":bool(viol) and rc==1,"concrete_input":bool(fi),"violation_lines":viol[:3],"failing_input":fi}
 m['verif_check_run']=run   # latest automated run; the first outcome is kept in verif_first_run
 if 'verif_first_run' not in m and not isinstance(m.get('verif_check_result'),str):
     m['verif_first_run']='missed' if not run['caught'] else ('caught' if fi else 'noinput')
